@@ -67,6 +67,8 @@ def run(ctx):
     from props import common, c03
     nt = ordertable.cmp_table(rep, F) + ordertable.checked_diff_contract(rep, F) + ordertable.eq_table(rep, F)
     ng = scangap.check(rep, F, F.reach(common.cmp_entries(F)))
+    from rules import ziplen
+    ziplen.check(rep, F, F.reach(common.cmp_entries(F)))
     nh = c03.hashed_data(rep, F) + c03.zero_hashes_alike(rep, F) + c03.feeding_shape(rep, F)
     nn = normalform.check(rep, F)
     rep.floor('comparison table cells', nt, 20)
